@@ -12,7 +12,6 @@ import (
 	"github.com/kubewharf/kubegateway/pkg/ratelimiter/limiter"
 	"github.com/kubewharf/kubegateway/pkg/ratelimiter/limiter/elector"
 	_interface "github.com/kubewharf/kubegateway/pkg/ratelimiter/store/interface"
-	"github.com/kubewharf/kubegateway/pkg/ratelimiter/store/k8s"
 	limitutil "github.com/kubewharf/kubegateway/pkg/ratelimiter/util"
 
 	"verifharness/rig"
@@ -77,6 +76,10 @@ func genOverlap(c *rig.Ctx, i int) Case {
 
 func runOverlap(c *rig.Ctx, cs Case, m mode) int {
 	var v verdict
+	if !haveK8sState {
+		c.Count("skipped/overlap (no k8s state shim)")
+		return pass
+	}
 	fail := func(kind, class, what string, at int, impl, model interface{}) {
 		cut := cs
 		if at >= 0 && at+1 < len(cs.OOps) {
@@ -111,7 +114,7 @@ func runOverlap(c *rig.Ctx, cs Case, m mode) int {
 			<-p.done
 		}
 		for _, st := range stores {
-			k8s.VerifC13Abandon(st)
+			abandon(st)
 		}
 	}()
 	sight := func() int { // the id of the map's store (-1: none)
@@ -191,7 +194,7 @@ func runOverlap(c *rig.Ctx, cs Case, m mode) int {
 			ob.Map = &id
 		}
 		for _, st := range stores {
-			_, _, stopCh, _ := k8s.VerifC13StoreState(st)
+			_, _, stopCh, _ := storeState(st)
 			ob.Stores = append(ob.Stores, stopCh)
 		}
 		for id := range pending {
